@@ -79,6 +79,19 @@ def oracle(tr):
                     if k != 1:
                         bad.append((None, "step %d: the processed message (serial %s from %s to %s) matches monitor %d's filter %s and was shown to it %d times" %
                                     (i, fld(sent, "ser"), names[actor], d, m, rules, k)))
+        # a monitor owns no names: nothing tells it that it acquired one, nothing tells the others that it owns one
+        for m in list(monitors):
+            if m in closed or m not in names:
+                continue
+            for l in per.get(m, []):
+                if hexname(fld(l, "sender")) == BUS and hexname(fld(l, "member")) == "NameAcquired" and hexname(fld(l, "dest")) == names[m]:
+                    bad.append((None, "step %d: monitor %d (%s) was told NameAcquired: %s" % (i, m, names[m], (fld(l, "body") or "")[:80])))
+            for to, ls in per.items():
+                for l in ls:
+                    if hexname(fld(l, "sender")) == BUS and hexname(fld(l, "member")) == "NameOwnerChanged":
+                        parts = (fld(l, "body") or "").split(",")
+                        if len(parts) == 3 and parts[2].startswith("s:") and hexname(parts[2][2:]) == names[m] and hexname(parts[0][2:]) != names[m]:
+                            bad.append((None, "step %d: NameOwnerChanged announces monitor %d (%s) as the new owner of %s" % (i, m, names[m], hexname(parts[0][2:]))))
         # becoming a monitor
         if is_become_monitor(sent) and actor not in monitors:
             acks = [l for l in per.get(actor, []) if fld(l, "t") == "2" and fld(l, "rs") == fld(sent, "ser") and hexname(fld(l, "sender")) == BUS]
@@ -164,6 +177,7 @@ def run(ctx):
                            findings=findings, seed_salt=42, label="monitors-with-denials")
     buscheck.run_histories(ctx, 0, 0, oracle, findings=findings, seed_salt=43, label="vanished-peer-filters", scripts=vanished_peer_scripts())
     buscheck.run_histories(ctx, 0, 0, oracle, findings=findings, seed_salt=44, label="filters-by-owner", scripts=owner_filter_scripts())
+    buscheck.run_histories(ctx, 0, 0, oracle, findings=findings, seed_salt=45, label="queued-then-monitor", scripts=queued_monitor_scripts())
     # monitors together with service activation: model (activation layer) against the daemon, step by step
     from .. import actcheck, actdiff, actgen
     actcheck.run_histories(ctx, 0, 0, actdiff.Svc(actgen.DEFAULT_FILES), scripts=activation_scripts(), label="monitors-and-activation",
@@ -189,6 +203,34 @@ def run(ctx):
                     {"kind": "bus-history", "label": "interference", "seed": r["seed"], "policy": busdiff.SESSION.rules, "limits": None,
                      "extra": "", "ops": r["ops"], "diffs": r["diffs"]}, True)
     ctx.coverage.setdefault("histories", {})["interference"] = {"histories": len(good), "with_monitors": len(withm)}
+
+
+def queued_monitor_scripts():
+    """a connection that waits in a name's queue (and owns another name outright) becomes a monitor: it leaves every queue, so that when
+    the owner gives the name up nobody - in particular not the monitor - owns it"""
+    from ..bus import method_call, BUS_PATH
+    hello = lambda: method_call(1, BUS, BUS_PATH, BUS, "Hello").marshal()
+    become = lambda rules: method_call(20, BUS, BUS_PATH, "org.freedesktop.DBus.Monitoring", "BecomeMonitor", "asu", [rules, 0]).marshal()
+    req = lambda s, n, f=0: method_call(s, BUS, BUS_PATH, BUS, "RequestName", "su", [n, f]).marshal()
+    base = [("connect", 0, 0, False), ("send", 0, hello())] + [x for c in (1, 2, 3) for x in (("connect", c, 0, False), ("send", c, hello()))]
+    out = []
+    for rules in ([], [b"type='signal'"]):
+        for how in ("release", "close"):
+            for also_owner in (False, True):
+                for second_waiter in (False, True):
+                    ops = list(base) + [("send", 0, req(2, b"com.example.A")), ("send", 1, req(3, b"com.example.A"))]
+                    if also_owner:
+                        ops.append(("send", 1, req(4, b"com.example.B")))
+                    if second_waiter:
+                        ops.append(("send", 3, req(5, b"com.example.A")))
+                    ops.append(("send", 1, become(rules)))
+                    ops.append(("send", 2, method_call(6, BUS, BUS_PATH, BUS, "ListQueuedOwners", "s", [b"com.example.A"]).marshal()))
+                    ops.append(("send", 0, method_call(7, BUS, BUS_PATH, BUS, "ReleaseName", "s", [b"com.example.A"]).marshal()) if how == "release" else ("close", 0))
+                    ops += [("send", 2, method_call(8, BUS, BUS_PATH, BUS, "GetNameOwner", "s", [b"com.example.A"]).marshal()),
+                            ("send", 2, method_call(9, "com.example.A", "/a", "a.b", "ToTheName", "s", [b"x"]).marshal()),
+                            ("send", 2, method_call(10, BUS, BUS_PATH, BUS, "NameHasOwner", "s", [b"com.example.B"]).marshal())]
+                    out.append(ops)
+    return out
 
 
 def owner_filter_scripts():
